@@ -422,6 +422,9 @@ class WireEval:
                 return o.case[name]
             if name == "response":
                 return o.case.get("response")
+            if name == "is_query":
+                # Command.is_query: the command class has a response type
+                return o.case.get("response") is not None
             return Unknown("command." + name)
         if isinstance(o, FrameObj):
             if name in ("as_byte_sequence",):
